@@ -248,8 +248,9 @@ structure LoopSt where
   position : Length
   nextPosition : Length
   diffIdx : Nat
-  trace : List (Length × Length)   -- reversed list of add calls
-  matched : List (Nat × Nat)       -- reversed list of spans on which `compare` answered Matches
+  spans : List (Length × Length × Nat)   -- reversed list of the iterations' spans `(position, next_position, label)`:
+                                         -- label 0 = handed to `ts_range_array_add` (changed), 1 = `compare` answered
+                                         -- Matches (skipped), 2 = passed over without either (may differ, no descent possible / both descended)
   fuelOut : Bool := false
 
 /-- One iteration of the `do … while` body. -/
@@ -277,10 +278,10 @@ def loopBody (al : AliasTable) (fixed : Bool) (diffs : List TSRange) (treeFuel :
   let (n, f2) := catchUp al treeFuel (2 * treeFuel + 2) n nextPosition.bytes
   let o := ascendTo al (o.stack.length + 1) o n.visibleDepth
   let n := ascendTo al (n.stack.length + 1) n o.visibleDepth
-  let trace := if isChanged then (s.position, nextPosition) :: s.trace else s.trace
-  let matched := if cmp == .matches then (s.position.bytes, nextPosition.bytes) :: s.matched else s.matched
+  let label := if isChanged then 0 else if cmp == .matches then 1 else 2
+  let spans := (s.position, nextPosition, label) :: s.spans
   let diffIdx := skipDiffs diffs.toArray s.diffIdx nextPosition.bytes (diffs.length + 1)
-  { o := o, n := n, position := nextPosition, nextPosition := nextPosition, diffIdx := diffIdx, trace := trace, matched := matched,
+  { o := o, n := n, position := nextPosition, nextPosition := nextPosition, diffIdx := diffIdx, spans := spans,
     fuelOut := s.fuelOut || f1 || f2 }
 
 def mainLoop (al : AliasTable) (fixed : Bool) (diffs : List TSRange) (treeFuel : Nat) : Nat → LoopSt → LoopSt
@@ -294,11 +295,13 @@ structure Changed where
   main : List (Length × Length)      -- add calls before and inside the loop, in call order
   post : List (Length × Length)      -- the final size-difference call (0 or 1 element)
   matched : List (Nat × Nat)
+  spans : List (Length × Length × Nat)   -- the iterations' spans in order (see `LoopSt.spans`)
+  pre : List (Length × Length)           -- the call made before the loop (0 or 1 element); `main = pre ++ calls spans`
   fuelOut : Bool
 
 /-- The add calls of `ts_subtree_get_changed_ranges` in order: (before and inside the loop, after the loop). -/
 def changedTrace (al : AliasTable) (fixed : Bool) (old new : Tree) (diffs : List TSRange) :
-    List (Length × Length) × List (Length × Length) × List (Nat × Nat) × Bool :=
+    List (Length × Length) × List (Length × Length × Nat) × List (Length × Length) × Bool :=
   let o := iterNew old
   let n := iterNew new
   let p := o.startPosition
@@ -309,20 +312,27 @@ def changedTrace (al : AliasTable) (fixed : Bool) (old new : Tree) (diffs : List
     else ([], p, np)
   let treeFuel := old.size + new.size + 2
   let s := mainLoop al fixed diffs treeFuel (4 * treeFuel + 8)
-    { o := o, n := n, position := position, nextPosition := nextPosition, diffIdx := 0, trace := pre, matched := [] }
+    { o := o, n := n, position := position, nextPosition := nextPosition, diffIdx := 0, spans := [] }
   let os := old.totalSize
   let ns := new.totalSize
   let post := if os.bytes < ns.bytes then [(os, ns)] else if ns.bytes < os.bytes then [(ns, os)] else []
-  (s.trace.reverse, post, s.matched.reverse, s.fuelOut)
+  (pre, s.spans.reverse, post, s.fuelOut)
 
 /-- The array built by a sequence of `ts_range_array_add` calls (reversed). -/
 def foldAdd (racc : List TSRange) (tr : List (Length × Length)) : List TSRange :=
   tr.foldl (fun acc p => addRev acc p.1 p.2) racc
 
+/-- The spans that were handed to `ts_range_array_add`. -/
+def callsOf (spans : List (Length × Length × Nat)) : List (Length × Length) :=
+  spans.filterMap fun x => if x.2.2 == 0 then some (x.1, x.2.1) else none
+
 /-- `ts_subtree_get_changed_ranges`. -/
 def changedRanges (al : AliasTable) (fixed : Bool) (old new : Tree) (diffs : List TSRange) : Changed :=
-  let (main, post, m, f) := changedTrace al fixed old new diffs
-  { ranges := (foldAdd (foldAdd [] main) post).reverse, main := main, post := post, matched := m, fuelOut := f }
+  let (pre, spans, post, f) := changedTrace al fixed old new diffs
+  let main := pre ++ callsOf spans
+  { ranges := (foldAdd (foldAdd [] main) post).reverse, main := main, post := post,
+    matched := spans.filterMap (fun x => if x.2.2 == 1 then some (x.1.bytes, x.2.1.bytes) else none),
+    spans := spans, pre := pre, fuelOut := f }
 
 /-- A call to `ts_range_array_add` is *admissible* for the current (reversed) array when it either
 starts after the last range (a new range is pushed, or nothing happens) or — the case in which the
@@ -337,6 +347,29 @@ def admissible (racc : List TSRange) (s e : Length) : Bool :=
 def traceAdmissible : List TSRange → List (Length × Length) → Bool
   | _, [] => true
   | racc, (s, e) :: rest => admissible racc s e && traceAdmissible (addRev racc s e) rest
+
+/-- A call *grows* the array: it starts after the last range, or it starts inside/at the last range
+and ends at or after its end.  Then nothing that was covered gets uncovered and the call's own
+span is covered (`addRev_grow`). -/
+def growOK (racc : List TSRange) (s e : Length) : Bool :=
+  match racc with
+  | [] => true
+  | last :: _ => decide (last.end_byte < s.bytes) ||
+      (decide (last.start_byte ≤ s.bytes) && decide (last.end_byte ≤ e.bytes))
+
+def traceGrow : List TSRange → List (Length × Length) → Bool
+  | _, [] => true
+  | racc, (s, e) :: rest => growOK racc s e && traceGrow (addRev racc s e) rest
+
+/-- The iterations' spans tile the byte line from `lo` on: each starts where the previous one ended
+and does not go backwards. -/
+def spansTile : Nat → List (Length × Length × Nat) → Bool
+  | _, [] => true
+  | lo, (s, e, _) :: rest => decide (s.bytes = lo) && decide (s.bytes ≤ e.bytes) && spansTile e.bytes rest
+
+def spansEnd : Nat → List (Length × Length × Nat) → Nat
+  | lo, [] => lo
+  | _, (_, e, _) :: rest => spansEnd e.bytes rest
 
 /-- Largest end handed over. -/
 def traceBound : List (Length × Length) → Nat
